@@ -57,7 +57,7 @@ RULE = (
 CFG = {"op": "parse_seesaw", "oracle": "c19.py", "dialect": "seesaw", "fn": "parse_seesaw_string",
        "fn_file": "parse_seesaw_file", "build": build, "norm_tree": lambda t: t, "rule": RULE, "kinds": st.KINDS}
 PARTIAL = [
-    "rejection of a wrong number / kind of arguments for statement kinds other than reporter, and of a bad concentration on gate / threshold targets: checked on the implementation and in the correspondence only (proved: reporter argument faults, negative / missing concentration on a wire, input bound to a fluorophore)",
+    "rejection theorems cover one fault family per statement kind (INPUT bound to a fluorophore, OUTPUT second argument, seesaw missing list, conc missing / negative number on wire / gate / threshold, reporter argument faults, inputfanout non-numeric fan-out, seesawOR / seesawAND missing list); other faults of the systematic family (deleted brackets, swapped kinds inside lists) are checked on the implementation and in the correspondence only",
 ]
 
 
